@@ -157,6 +157,7 @@ class nonfatal_bad_request_c:
           returns="obj:xandikos.webdav.Response",
           may_raise=["ValueError", "KeyError", "AssertionError", "BadRequestError", "UnsupportedMediaType",
                      "FileExistsError"],
+          modifies_on_raise=["fs()"],
           locals={"propstat": "list[tuple[str,opt[str],opaque:XmlOut]]"}, loop_modifies={0: ["propstat"]})
 class Mkcol_handle:
     """C13: the collection is created at the normalised request path (obligation
@@ -174,8 +175,9 @@ class Mkcol_handle:
         return implies("created" in effect_names(), effect_names()[0] == "read_body")
 
     def ensures_raise_nothing_created(self):
-        # C01 in full: a request answered with an error creates nothing
-        return "created" not in effect_names()
+        # C01 in full: a request answered with an error creates nothing (what it had created is
+        # removed again before the error leaves the handler)
+        return implies("created" in effect_names(), "destroyed" in effect_names())
 
     def inv_0(self, propstat, _i, _seq):
         return True
